@@ -71,7 +71,7 @@ func take(i int) any {
 //go:noinline
 func add(p *vs.Pool, x any) int {
 	if nPuts == maxPuts {
-		panic("poolctl: too many puts in one execution")
+		return -1 // full: the item is dropped, as a pool may always do
 	}
 	i := nPuts
 	entries[i] = entry{pool: p, item: x, live: true}
@@ -93,7 +93,7 @@ func FreeItems() []any {
 	return r
 }
 
-func (Sched) PoolGet(p *vs.Pool) (any, bool) {
+func (Sched) PoolGet(p *vs.Pool) (any, bool, bool) {
 	inThread := schedx.Current() >= 0 // false: set-up code on the controller goroutine, before the threads run
 	if inThread {
 		schedx.Point("pool.Get")
@@ -106,37 +106,35 @@ func (Sched) PoolGet(p *vs.Pool) (any, bool) {
 	}
 	if k >= n {
 		bump(&GetsNew)
-		return nil, false
+		return nil, false, true
 	}
 	i := idx[k]
 	atomic.LoadUint32(&words[i]) // acquire: pairs with the store of the Put that published this item
 	bump(&GetsFromPool)
-	return take(i), true
+	return take(i), true, true
 }
 
 //go:norace
 //go:noinline
 func bump(p *int) { *p++ }
 
-func (Sched) PoolPut(p *vs.Pool, x any) {
+func (Sched) PoolPut(p *vs.Pool, x any) bool {
 	inThread := schedx.Current() >= 0
 	if inThread {
 		schedx.Point("pool.Put")
 	}
 	i := add(p, x)
-	atomic.StoreUint32(&words[i], 1) // release
+	if i >= 0 {
+		atomic.StoreUint32(&words[i], 1) // release
+	}
 	if inThread {
 		schedx.Point("after pool.Put")
 	}
+	return true
 }
 
-func (Sched) Lock(m *vs.Mutex) {
-	if schedx.Current() < 0 { // set-up code on the controller goroutine
-		if !schedx.TryAcquire(&m.Held) {
-			panic("verif: set-up code blocks on a lock that is never released (deadlock)")
-		}
-		return
-	}
+func (Sched) Lock(m *vs.Mutex) bool {
 	schedx.Lock(&m.Held)
+	return true
 }
-func (Sched) Unlock(m *vs.Mutex) { schedx.Unlock(&m.Held) }
+func (Sched) Unlock(m *vs.Mutex) bool { schedx.Unlock(&m.Held); return true }
